@@ -178,8 +178,11 @@ SPECS = {
     },
     "C08": {
         **_meta('Histories build,(query|save)* and load,(query|save)* on every kind: images of repeated saves compared byte for byte, answers before/after each save compared, two independent builds compared, re-saved images of loaded objects compared or reloaded and re-queried.', 'property-based testing (rapidcheck), byte-equality + differential before/after oracle'),
-        "stages": dict_stages(ALL, 40, 8, floors={"c08_rebuild_equal": 200}),
-        "rule": "case as C01 with a generated query list; non-trivial = n>=2 and >=2 saves on one object interleaved with queries",
+        "stages": (lambda tier: dict_stages(ALL, 40, 8, floors={"c08_rebuild_equal": 200})(tier)
+                   + [{"name": "perturb", "binary": "dict_plain", "param": "perturb", "plan": dict_plan(ALL, 25 * (12 if tier == "thorough" else 1), 5 * (12 if tier == "thorough" else 1)),
+                       "label_floors": {"c08_perturb_pair": 300}, "nontrivial_floor": 100}]),
+        "rule": "case as C01 with a generated query list; non-trivial = n>=2 and >=2 saves on one object interleaved with queries; "
+                "stage 'perturb' (plain build): the same case built under mallopt(M_PERTURB, 0x11) and 0xEE, images compared",
         "assumptions": DICT_ASSUME,
     },
     "C12": {
